@@ -17,6 +17,17 @@ SUBJ = {
  ("C07","comprehension-scope"): "visible inside comprehensions",
  ("C07","quantifier-index-crash"): "in the range of a quantifier",
  ("C10","slice-reparents"): "slicing a tree does not re-parent",
+ ("C08","fstring-whitespace"): "f-strings in a spec keep their literal text",
+ ("C08","fstring-quotes"): "f-strings in a spec keep their literal text",
+ ("C08","chained-comparison"): "chained comparison in a constraint",
+ ("C08","default-params"): "parameters with defaults stay positional",
+ ("C08","lambda"): "lambda expressions in a spec are rejected",
+ ("C15","grouping"): "printed repetitions keep their grouping",
+ ("C15","open-bound"): "printed repetitions keep their grouping",
+ ("C15","generator-args"): "printed generators name the symbols",
+ ("C15","quantifier-star"): "printed quantifiers and len",
+ ("C15","len-star"): "printed quantifiers and len",
+ ("C08","not-comparison"): "negates the comparison, as in Python",
 }
 log = subprocess.check_output(["git","-C","/repo","log","--format=%h %s"]).decode().splitlines()
 k = json.load(open("/verif/known_findings.json"))
